@@ -21,6 +21,8 @@ const STARTS: [u32; 8] = [0, 1, 9000, 0x7FFF_FFFF, 0x8000_0000, 0xFFFF_FFFD, 0xF
 struct Hist {
     creds: Vec<(Vec<u8>, Option<u32>, bool)>, // id, start counter, has prf secrets
     steps: Vec<(usize, bool)>,               // credential index, request prf
+    /// steps performed as silent assertions (up=false, uv=false, the user-validation step reports nothing)
+    silent: Vec<bool>,
     /// the k-th counter update of the history is refused by the store with this status
     update_fault: Option<(usize, u8)>,
     register_first: bool,
@@ -43,9 +45,10 @@ fn gen(seed: u64, idx: u64) -> Hist {
         creds[0].1 = Some(*rng.pick(&[0xFFFF_FFFE, 0xFFFF_FFFF, 0xFFFF_FFFD]));
     }
     let len = rng.range(5, 50);
-    let steps = (0..len).map(|_| (rng.below(n), rng.chance(1, 3))).collect();
+    let steps: Vec<(usize, bool)> = (0..len).map(|_| (rng.below(n), rng.chance(1, 3))).collect();
+    let silent: Vec<bool> = (0..len).map(|_| rng.chance(1, 5)).collect();
     let update_fault = if rng.chance(1, 3) { Some((rng.below(6), *rng.pick(&[0x28u8, 0x7F, 0x01, 0x2E, 0xF0]))) } else { None };
-    Hist { creds, steps, update_fault, register_first: rng.chance(1, 3), counters_cfg: rng.bool() }
+    Hist { creds, steps, silent, update_fault, register_first: rng.chance(1, 3), counters_cfg: rng.bool() }
 }
 
 fn start_class(h: &Hist) -> String {
@@ -131,7 +134,10 @@ pub fn iso_case(args: &Args, idx: u64) -> CaseOut {
                 eval_by_credential: None,
             }),
         });
-        let res = block_on(auth.get_assertion(ga_request(rp, &[2u8; 32], Some(vec![descriptor(&ids[k])]), ext, true, true)));
+        let silent = h.silent[step];
+        rig.uv.set_outcome(if silent { crate::collab::UvOutcome::Check { presence: false, verification: false } } else { crate::collab::UvOutcome::Check { presence: true, verification: true } });
+        let ext = if silent { None } else { ext };
+        let res = block_on(auth.get_assertion(ga_request(rp, &[2u8; 32], Some(vec![descriptor(&ids[k])]), ext, !silent, !silent)));
         let stored_now = rig.store.snapshot().into_iter().find(|c| c.id == ids[k]).and_then(|c| c.counter);
         let updates = rig.log.snapshot().iter().filter(|e| matches!(e.ev, Ev::Update { .. })).count();
         match res {
